@@ -43,13 +43,3 @@ proof fn lemma_i8(b: u8)
 {
     assert(#[verifier::truncate] (b as i8) as int == (if b < 128u8 { b as int } else { b as int - 256 })) by (bit_vector);
 }
-pub broadcast proof fn b_seq_assoc<A>(a: Seq<A>, b: Seq<A>, c: Seq<A>)
-    ensures #[trigger] (a + (b + c)) == (a + b) + c
-{ assert(a + (b + c) =~= (a + b) + c); }
-pub broadcast proof fn b_seq_empty_r<A>(a: Seq<A>)
-    ensures #[trigger] (a + Seq::<A>::empty()) == a
-{ assert(a + Seq::<A>::empty() =~= a); }
-pub broadcast proof fn b_seq_empty_l<A>(a: Seq<A>)
-    ensures #[trigger] (Seq::<A>::empty() + a) == a
-{ assert(Seq::<A>::empty() + a =~= a); }
-pub broadcast group seq_add_lemmas { b_seq_assoc, b_seq_empty_r, b_seq_empty_l }
